@@ -1199,12 +1199,35 @@ class Engine:
         return [(st, self.intr.value_attr(self, st, v, attr, node))]
 
     def ex_Subscript(self, node, st):
+        if isinstance(node.slice, ast.Slice):
+            return self.ex_Slice(node, st)
         outs = []
         for (s1, vals) in self.ev_many([node.value, node.slice], st):
             if isinstance(vals, Raise):
                 outs.append((s1, vals))
             else:
                 outs.extend(self.intr.get_item(self, s1, vals[0], vals[1], node))
+        return outs
+
+    def ex_Slice(self, node, st):
+        """seq[:n] on a symbolic list (prefix of length n)"""
+        sl = node.slice
+        if sl.lower is not None or sl.step is not None or sl.upper is None:
+            raise Unsupported('slice shape')
+        outs = []
+        for (s1, vals) in self.ev_many([node.value, sl.upper], st):
+            if isinstance(vals, Raise):
+                outs.append((s1, vals))
+                continue
+            seq, n = vals
+            if isinstance(seq, Sym) and seq.ty.kind == 'list':
+                nt = lift(n)
+                # Python clamps the bound; only 0 <= n <= len is modelled
+                self.oblige(s1, z3.And(nt >= 0, nt <= z3.Length(seq.t)), 'type',
+                            'slice-bound-in-range@L%d' % node.lineno, line=node.lineno)
+                outs.append((s1, IterV('prefix', seq, nt)))
+            else:
+                raise Unsupported('slice of %r' % (seq,))
         return outs
 
     def set_item(self, st, container_node, key, v):
@@ -1416,6 +1439,12 @@ class Engine:
         for (label, f) in con.requires(c0):
             if label.startswith('def-'):
                 continue      # definitional axiom of a ghost predicate, not a caller obligation
+            if label.startswith('assume-'):
+                # documented protocol assumption of the callee that no caller can establish
+                # locally; recorded, not proved
+                self.stats.setdefault('assumed_preconditions', set()).add(
+                    '%s: %s' % (short, label))
+                continue
             self.oblige(st, f, 'pre', '%s.%s@L%s' % (short, label, line),
                         props=sorted(set(con.props) | set(self.cur_contract.props)), line=line)
         cg = (getattr(self.cur_contract, 'call_guards', None) or {}).get(short)
@@ -1583,17 +1612,21 @@ class Engine:
                         notallowed = z3.And(notallowed, is_alloc(self.gread(entry, 'alloc'), o))
                     self.oblige(s1, z3.Implies(notallowed, cur == ent), 'frame', tag + field)
             for gname in list(s1.g.keys()):
-                if gname in mod_ghost or gname == 'alloc':
+                if gname in mod_ghost or gname in ('alloc', 'cb_exc'):
                     continue
                 g0 = self.gread(entry, gname)
                 if not g0.eq(s1.g[gname]):
                     self.oblige(s1, s1.g[gname] == g0, 'frame', tag + 'g:' + gname)
         mods = con.modifies(c0)
         exit_hook = getattr(con, 'exit_obligations', None)
+        # "every exception that leaves the function is declared" is an obligation of every
+        # function even when no exceptional path exists (so that a later undeclared exception is a
+        # regression of a named obligation)
+        self.oblige(entry, z3.BoolVal(True), 'exc', 'declared-exception')
         for (s1, ctrl, v) in outcomes:
             if exit_hook is not None and ctrl in ('ok', 'ret', 'exc'):
                 # obligations over the locals at the exit (e.g. objects created by this call)
-                for (label, f, props) in exit_hook(self, s1, ctrl):
+                for (label, f, props) in exit_hook(self, s1, ctrl, v):
                     self.oblige(s1, f, 'exit', label, props=props)
             if ctrl in ('ok', 'ret'):
                 if not con.may_return:
